@@ -493,6 +493,9 @@ SKELETONS = [
         ("is_closed", r"\.is_closed\s*\("), ("has_signals", r"\bhas_signals\s*\("),
         ("pending", r"\.pending\s*\("), ("flush", r"\.flush\s*\(")]),
     ("src/iterator/backend.rs", "pending", None),
+    ("src/iterator/backend.rs", "next", [
+        ("load", r"\.load\s*\("), ("return", r"\breturn\b"), ("else", r"\belse\b"),
+        ("advance", r"position\s*\+=\s*1"), ("advance", r"position\s*=\s*[^=]")]),
     ("src/iterator/backend.rs", "poll_signal", [
         ("is_closed", r"\.is_closed\s*\("), ("iter.next", r"\.iter\s*\.next\s*\("),
         ("poll_pending", r"\.poll_pending\s*\("), ("flush", r"\.flush\s*\("), ("pending", r"\.pending\s*\(")]),
@@ -547,6 +550,19 @@ def extract_skeletons():
             src = src[:cut]
         # the action closure of the iterator / the inherent `pending` are the last definitions
         occ = 0
+        if fn == "next":
+            # `Pending::next`: the `fn next` whose body loads from the exfiltrator
+            sigs = [m for m in re.finditer(r"\bfn\s+next\b", src)]
+            occ = None
+            for i in range(len(sigs)):
+                try:
+                    if "exfiltrator.load" in fn_body(src, "next", i):
+                        occ = i
+                        break
+                except ExtractError:
+                    pass
+            if occ is None:
+                raise ExtractError("Pending::next not found")
         if fn == "handler":
             # the non-windows dispatcher is the definition whose signature mentions `siginfo_t`
             sigs = [m for m in re.finditer(r"\bfn\s+handler\b[^{]*", src)]
